@@ -201,10 +201,17 @@ func checkC07(c C07Case, st *stats.Collector) error {
 		for pos := lo; pos < hi; pos++ {
 			for bit := 0; bit < 8; bit++ {
 				work[pos] ^= 1 << bit
-				for mi, lp := range []mc.LexParams{lpA, lpB} {
+				lps := []mc.LexParams{lpA, lpB}
+				if r.Compression != "" && (pos+bit)%3 == 0 {
+					// one flip in three is also read with caller-supplied decoders for the standard formats
+					lpC := lpA
+					lpC.OwnCodecs = true
+					lps = append(lps, lpC)
+				}
+				for mi, lp := range lps {
 					res := mc.LexAll(bytes.NewReader(work), lp, false)
 					evals++
-					label := fmt.Sprintf("chunk %d (%q) byte %d bit %d, emitInvalid=%v", ci, r.Compression, pos-lo, bit, mi == 1)
+					label := fmt.Sprintf("chunk %d (%q) byte %d bit %d, emitInvalid=%v, caller-supplied decoders=%v", ci, r.Compression, pos-lo, bit, mi == 1, lp.OwnCodecs)
 					det, err := judgeCorrupted(label, base.Events, T, &res, ch.first, ch.after, r.Compression == "", zstdSurplus(work[lo:hi], r), st)
 					if err != nil {
 						work[pos] ^= 1 << bit
